@@ -1,6 +1,7 @@
 //! corrlib — shared machinery of the correspondence harness (one binary crate per property).
 pub mod common;
 pub mod lcov;
+pub mod pipe;
 pub use common::*;
 
 /// Entry point shared by every property binary:
